@@ -1,65 +1,3 @@
-import Driver.Util
-import Driver.ExecIO
-import GqlgenVerif.Model.ExecSpec
-/-! Driver for C01: first line = schema JSON, every further line = one harness result (document,
-    coerced variables, invocation log). Prints the model's response for the same oracle. -/
-open Lean GqlgenVerif Driver.ExecIO
-namespace Driver.C01
-
-def fuel : Nat := 100000
-
-def runCase (s : Schema) (line : String) : String :=
-  match Json.parse line with
-  | .error e => "bad-json " ++ e
-  | .ok j =>
-    match j.getObjVal? "doc" with
-    | .error _ => "no-doc"
-    | .ok dj =>
-      let d := doc dj
-      let vs := match j.getObjVal? "variables" with | .ok v => vars v | _ => []
-      let rootName := if d.opKind == .mutation then s.mutation else s.query
-      match s.type? rootName with
-      | none => "no-root"
-      | some root =>
-        let o := oracle (arr j "log")
-        match planFields s (implCollector s d.frags vs) fuel root d.sels with
-        | none => "out-of-fuel"
-        | some fields =>
-          let (out, st) := Impl.execRoot o rootName fields
-          -- the Spec end to end: §6.3.2 collection + §6.4 completion, on the same oracle
-          let specVerdict :=
-            match planFields s (specCollector s d.frags vs) fuel root d.sels with
-            | none => "spec-out-of-fuel"
-            | some sfields =>
-              let (sout, sst) := Spec.execRoot o rootName sfields
-              if render sout != render out then "data"
-              else if errStrs sst.errs != errStrs st.errs then "errors"
-              else if sortStrs (sst.invs.map fun (p, h) => p ++ " " ++ h) !=
-                  sortStrs (st.invs.map fun (p, h) => p ++ " " ++ h) then "invocations"
-              else "agree"
-          let res := Json.mkObj [
-            ("data", Json.str (render out)),
-            ("errors", Json.arr ((errStrs st.errs).map Json.str).toArray),
-            ("invs", Json.arr ((sortStrs (st.invs.map fun (p, h) => p ++ " " ++ h)).map Json.str).toArray),
-            ("recovers", Json.num st.recovers),
-            ("unlogged", Json.arr (st.unlogged.map Json.str).toArray),
-            ("wf", Json.bool (fieldsWfb fields)),
-            ("dupsUnrelated", Json.bool (fieldsDupsUnrelated s fields)),
-            ("spec", Json.str specVerdict)]
-          res.compress
-
-partial def loop (h : IO.FS.Stream) (out : IO.FS.Stream) (s : Schema) : IO Unit := do
-  let line ← h.getLine
-  if line.isEmpty then return ()
-  out.putStrLn (runCase s line.trimRight)
-  loop h out s
-
-end Driver.C01
-
-def main : IO Unit := do
-  let stdin ← IO.getStdin
-  let stdout ← IO.getStdout
-  let first ← stdin.getLine
-  match Json.parse first with
-  | .error e => IO.eprintln ("bad schema: " ++ e)
-  | .ok j => Driver.C01.loop stdin stdout (schema j)
+import Driver.ExecRun
+/-! Driver for C01: the shared execution-model driver (`Driver/ExecRun.lean`). -/
+def main : IO Unit := Driver.ExecRun.main
